@@ -6,11 +6,7 @@ package main
 //
 // Class labels (decidable from the template, not from the outcome):
 //   ""              inside the domain of the isolation theorem
-//   go-bin-args     a go statement calls a binary (host) function and an argument variable is reassigned
-//                   afterwards (F08-2)
-//   select-recv2-expr  `case v, ok := <-expr` with a channel expression that is not an identifier (F08-1)
 //   go-funclit-loop `go func(){…}()` executed again in the same frame while an earlier activation is still running (F08-6)
-//   go-method-recv  `go x.M(…)` on a method of a script type whose receiver operand is overwritten afterwards (F08-4)
 
 import (
 	"fmt"
@@ -39,7 +35,7 @@ var templates = []func(r *rand.Rand) Tmpl{
 	tPipeline, tWorkerPool, tSelectPrivate, tMutexCounter, tProducerConsumer, tFanInSlots, tClosureLoop,
 	tGoArgCopy, tSelectMux, tPingPong, tParallelFib, tMethodGoroutines, tSemaphore, tSelectSharedSend,
 	tGoBinArgs, tRWMutexMap, tOnceAtomic, tNestedSpawn, tSelectDefaultPoll, tGoBinNoReassign, tMethodViaClosure, tGoFuncVar, tClosureSlice,
-	tPrivateRecv, tPrivateRecv2, tPrivateSend, tPrivateRange, tPrivateSelect,
+	tPrivateRecv, tPrivateRecv2, tPrivateSend, tPrivateRange, tPrivateSelect, tPrivateSelectForms,
 }
 
 func tPipeline(r *rand.Rand) Tmpl {
@@ -642,7 +638,7 @@ func tMethodGoroutines(r *rand.Rand) Tmpl {
 	for i := 0; i < w; i++ {
 		parts = append(parts, fmt.Sprint(n*(i+1)))
 	}
-	return Tmpl{Name: "method-goroutines", Class: "go-method-recv", Kind: "prog", Expect: strings.Join(parts, " ") + "\n", Src: fmt.Sprintf(`package main
+	return Tmpl{Name: "method-goroutines", Kind: "prog", Expect: strings.Join(parts, " ") + "\n", Src: fmt.Sprintf(`package main
 
 import (
 	"fmt"
@@ -796,10 +792,10 @@ func main() {
 `, w, n)}
 }
 
-// go statement on a binary method, argument variable reassigned afterwards (F08-2)
+// go statement on a binary method, argument variable reassigned afterwards (F08-2, repaired: inside the domain)
 func tGoBinArgs(r *rand.Rand) Tmpl {
 	a, b := 1+r.Intn(50), 100+r.Intn(50)
-	return Tmpl{Name: "go-bin-args", Class: "go-bin-args", Kind: "prog", Expect: fmt.Sprintf("k %d\n", a), Src: fmt.Sprintf(`package main
+	return Tmpl{Name: "go-bin-args", Kind: "prog", Expect: fmt.Sprintf("k %d\n", a), Src: fmt.Sprintf(`package main
 
 import (
 	"fmt"
@@ -1165,6 +1161,45 @@ func tPrivateSelect(r *rand.Rand) Tmpl {
 				case out <- v:
 				}
 			}
+		}
+	}`)
+}
+
+// the clause forms of F08-1, F08-3, F08-5 (all repaired) executed by several goroutines on private channels:
+// two-value assignment with an indexed channel expression, single-value assignment, assignment with an empty body
+func tPrivateSelectForms(r *rand.Rand) Tmpl {
+	return privateKind(r, "select-forms", `	ins := []chan int{in}
+	v, ok, k := 0, false, 0
+	for open := true; open; k++ {
+		verif.Mark(w)
+		switch k % 3 {
+		case 0:
+			select {
+			case v, ok = <-ins[0]:
+			}
+		case 1:
+			ok = len(in) > 0
+			if ok {
+				select {
+				case v = <-in:
+					v += 0
+				}
+			}
+		default:
+			select {
+			case v, ok = <-in:
+				v += 0
+			}
+		}
+		if !ok {
+			open = false
+		} else {
+			if v/1000000 == w {
+				got++
+			} else {
+				wrong++
+			}
+			out <- v
 		}
 	}`)
 }
